@@ -45,6 +45,7 @@ class ContentCfg:
         self.reifiable = 0.0        # bias towards roles that have reifications
         self.reified_nodes = 0.0    # probability of adding a collapsible reified node
         self.invalid_roles = 0.0
+        self.var_like_constants = 0.0   # constants spelled like variables of *other* graphs
         self.avoid_ambiguous = False   # skip AMR's include-91 / :subset / :superset (finding F4)
         self.__dict__.update(kw)
 
@@ -89,6 +90,8 @@ def gen_content(rng, spec, cfg=None):
         return rng.pick(attr_roles)
 
     def constant():
+        if rng.chance(cfg.var_like_constants):
+            return rng.pick(['a', 'b', 'x', 'y', 's', 's2', '_', 'c', 'g'])
         if rng.chance(cfg.exotic):
             return rng.pick(EXOTIC_STRINGS)
         x = rng.random()
